@@ -40,6 +40,8 @@ class World:
         self.ctx = ctx
         self.model = Model(ctx.sources)
         self.eff = Effects(self.model)
+        global CURRENT_EFF
+        CURRENT_EFF = self.eff
         st = self.model.stats()
         self.stats = st
         self.roots = self.model.api_roots()
@@ -390,6 +392,9 @@ def recognise_global_memo(model: Model, func: str) -> Optional[List[str]]:
     return problems
 
 
+CURRENT_EFF = None      # effect summaries of the World built last (one per check run)
+
+
 def deep_store_is_rmw(model: Model, sw: "SharedWrite") -> bool:
     """A component store deep inside a shared structure is certain data modification when the new value is computed from the
     old one: `v[0] = v[0] + d`, or an in-place transformation `f(x, x)` (the written parameter aliases a read one) on the way."""
@@ -405,6 +410,25 @@ def deep_store_is_rmw(model: Model, sw: "SharedWrite") -> bool:
                 texts = [core.src(a) for a in n.args if isinstance(a, (ast.Name, ast.Attribute, ast.Subscript))]
                 if len(texts) != len(set(texts)):
                     return True
+                # the destination is what a lookup function of shared state has just handed out:  copy(table.get(k), value)
+                # overwrites the datum every other caller of that lookup receives
+                if CURRENT_EFF is not None and n.args and isinstance(n.args[0], ast.Call):
+                    for cs in model.calls.get(cf, []):
+                        if cs.node is n.args[0] and cs.kind in ("func", "method"):
+                            for callee in cs.callees:
+                                sm = CURRENT_EFF.summaries.get(callee)
+                                if sm is None:
+                                    continue
+                                if any(r[0] == "G" for r in sm.ret):
+                                    return True
+                                # ... or hands out part of its receiver / argument, and that is a module-level object
+                                inner = n.args[0]
+                                actuals = ([inner.func.value] if cs.kind == "method" and isinstance(inner.func, ast.Attribute) else []) + list(inner.args)
+                                for r in sm.ret:
+                                    if r[0] == "P" and r[2] >= 1 and r[1] < len(actuals):
+                                        bd = model.resolve_expr_binding(actuals[r[1]], cfi.module)
+                                        if bd is not None and bd.kind == "var":
+                                            return True
     return False
 
 
